@@ -164,11 +164,32 @@ def run(ctx):
         payload = val[2][0] if val[2] else None
         if payload == ("agg", ("adt", "os_common::ExitStatus", "Undetermined"), ()):
             seen_undetermined = True
+            def is_echild_const(x):
+                return x[0] == "const" and x[1] == 10 and x[2] in ("libc::ECHILD", "posix::ECHILD")
+
             def is_echild_cmp(t):
-                return (t[0] == "bin" and t[1] == "Eq" and any(const_of(x) == 10 and x[2] in ("libc::ECHILD", "posix::ECHILD") for x in t[2:4] if x[0] == "const")
-                        and any(M.contains(x, lambda u: u[0] == "call" and u[1] == "std::io::Error::raw_os_error") for x in t[2:4]))
+                # errno == ECHILD on the payload of raw_os_error(e) ...
+                if t[0] == "bin" and t[1] == "Eq":
+                    return any(is_echild_const(x) for x in t[2:4]) and any(M.contains(x, lambda u: u[0] == "call" and u[1] == "std::io::Error::raw_os_error") for x in t[2:4])
+                # ... or  e.raw_os_error() == Some(ECHILD)
+                if t[0] == "call" and t[1].endswith("::eq") and "PartialEq" in t[1] and len(t[2]) == 2:
+                    a, b = [M.noref(x) for x in t[2]]
+                    is_raw = lambda x: x[0] == "call" and x[1] == "std::io::Error::raw_os_error"
+                    is_some = lambda x: x[0] == "agg" and x[1][:3] == ("adt", "std::option::Option", "Some") and is_echild_const(x[2][0])
+                    return (is_raw(a) and is_some(b)) or (is_raw(b) and is_some(a))
+                return False
             edges = bool_edges(wp, T, is_echild_cmp, True)
+            not_echild = bool_edges(wp, T, is_echild_cmp, False)
+            # a missing errno (raw_os_error() == None) is not ECHILD either
+            not_echild += variant_edges(wp, T, lambda t_: t_[0] == "call" and t_[1] == "std::io::Error::raw_os_error", 0, [0, 1], "std::option::Option<")
             ok = dominated_by_edges(wp, bb, edges)
+            # on ECHILD the error must not be propagated: every Err return of the waitpid-error arm lies behind a not-ECHILD edge
+            err_arm = variant_edges(wp, T, lambda t_: t_[0] == "call" and t_[1] == "posix::waitpid", 1, [0, 1], "std::result::Result<")
+            errs = [(b2, s2) for (b2, s2, v2, r2) in result_variants(wp, M.Explore(wp)) if v2 == "Err"]
+            prop_ok = bool(err_arm) and bool(errs) and all(dominated_by_edges(wp, b2, not_echild, start=err_arm[0][1]) for b2, _ in errs)
+            ctx.ob("R09.3", "echild.never-propagated", prop_ok, wp.loc(errs[0][0] if errs else bb),
+                   "when waitpid fails with ECHILD (someone else reaped the child) no path may return the error: the handle must become Finished(Undetermined), "
+                   "for the blocking and the non-blocking query alike")
             ctx.ob("R09.3", "echild.guard", ok, wp.loc(bb, si), "Finished(Undetermined) must be stored under `raw_os_error == ECHILD`")
             # returns Ok from there: the block's successors lead to return without passing an Err assignment
             rets = [x for x in wp.blocks[bb]["stmts"] if x["k"] == "assign" and x["p"]["l"] == 0 and not x["p"]["proj"]]
@@ -315,3 +336,8 @@ def run(ctx):
     ctx.ob("R09.6", "no-clone-copy-default", not bad, "", "Popen/ChildState must not be Clone/Copy/Default: %s" % [(i["self_ty"], i["trait"]) for i in bad])
     cs = prog.adts.get("popen::ChildState")
     ctx.ob("R09.6", "childstate.private", cs is not None and cs["vis"] != "pub", "", "ChildState visibility %s" % (cs or {}).get("vis"))
+
+
+def run_thorough(ctx):
+    # A8: clauses enforced by the type system itself, witnessed by compile_fail doctests with compiling twins
+    ctx.witness("R09.6", ['PrivateChildState', 'PrivateDetached', 'NoClone', 'NoLiteral', 'WaitNeedsMut'])
